@@ -426,7 +426,7 @@ def risky_edit(rnd, spec, objs=None):
     if jobs:
         choices += ["delete_data", "zero_duration"]
     if ups:
-        choices += ["traffic_up", "traffic_up"]
+        choices += ["traffic_up", "traffic_up", "tz_aware_starts"]
     if not choices:
         return None
     k = rnd.choice(choices)
@@ -462,6 +462,10 @@ def risky_edit(rnd, spec, objs=None):
     if k == "delete_data":
         j = rnd.choice(jobs)
         return {"op": "set", "obj": j, "attr": "data_stored", "value": ["q", -1e9, "TB"], "kind": "risky_" + k}
+    if k == "tz_aware_starts":
+        # local-time starts given with a time-zone-aware start date: accepted by the input checks, fails in the conversion to UTC (TypeError)
+        up = rnd.choice(ups); h = O[up]["params"]["hourly_usage_journey_starts"]
+        return {"op": "set", "obj": up, "attr": "hourly_usage_journey_starts", "value": ["h", list(h[1]), h[2][:19] + "+00:00", h[3]], "kind": "risky_" + k}
     if k == "traffic_up":
         up = rnd.choice(ups); h = O[up]["params"]["hourly_usage_journey_starts"]
         return {"op": "set", "obj": up, "attr": "hourly_usage_journey_starts", "value": ["h", [x * 1e6 + 1 for x in h[1]], h[2], h[3]], "kind": "risky_" + k}
